@@ -1,25 +1,31 @@
 #!/usr/bin/env python3
-"""Re-run every seeded change under /verif/seeded against the checks recorded in its meta.json (quick tier, scratch worktree),
-update meta.json["checks"], and print the markdown table used in DESIGN.md §8.
-usage: seed_matrix.py [--only <prefix>] [--table-only]"""
+"""Re-run every seeded change under /verif/seeded against the checks recorded in its meta.json (quick tier, scratch worktree and
+private copy of the Lean project per run, so several run in parallel), update meta.json["checks"], and print the markdown table
+used in DESIGN.md §8.
+usage: seed_matrix.py [--only <prefix>] [--table-only] [--targets-only] [--jobs N]"""
 import json
 import os
 import subprocess
 import sys
+from concurrent.futures import ThreadPoolExecutor
 
 VERIF = os.path.dirname(os.path.dirname(os.path.abspath(__file__)))
 only = sys.argv[sys.argv.index("--only") + 1] if "--only" in sys.argv else ""
-rows = []
-for name in sorted(os.listdir(os.path.join(VERIF, "seeded"))):
+jobs = int(sys.argv[sys.argv.index("--jobs") + 1]) if "--jobs" in sys.argv else 4
+
+
+def one(name):
     d = os.path.join(VERIF, "seeded", name)
     mp = os.path.join(d, "meta.json")
     if not os.path.exists(mp) or not name.startswith(only):
-        continue
+        return None
     meta = json.load(open(mp))
     pids = sorted(meta.get("checks", {}))
     tgt = meta.get("property")
     if tgt and tgt not in pids:
         pids.insert(0, tgt)
+    if "--targets-only" in sys.argv:
+        pids = [tgt]
     if "--table-only" not in sys.argv:
         out = subprocess.run([os.path.join(VERIF, "tools", "try_seed.py"), os.path.join(d, "patch.diff")] + pids,
                              stdout=subprocess.PIPE, stderr=subprocess.STDOUT, text=True).stdout
@@ -31,5 +37,12 @@ for name in sorted(os.listdir(os.path.join(VERIF, "seeded"))):
     det = [p for p, r in meta["checks"].items() if r == "DETECTED"]
     sil = [p for p, r in meta["checks"].items() if r != "DETECTED"]
     det.sort(key=lambda p: (p != tgt, p))
-    rows.append(f"| `{name}` | {tgt} | {meta.get('summary', '')[:230]} | {meta.get('needs', '')[:260]} | {', '.join(det) or '**none**'} | {', '.join(sil) or '—'} |")
-    print(rows[-1], flush=True)
+    clean = lambda t: " ".join(str(t).replace("|", "/").split())
+    row = (f"| `{name}` | {tgt} | {clean(meta.get('summary', ''))[:230]} | {clean(meta.get('needs', ''))[:260]} | "
+           f"{', '.join(det) or '**none**'} | {', '.join(sil) or '—'} |")
+    print(row, flush=True)
+    return row
+
+
+with ThreadPoolExecutor(max_workers=jobs) as ex:
+    rows = [r for r in ex.map(one, sorted(os.listdir(os.path.join(VERIF, "seeded")))) if r]
